@@ -19,7 +19,7 @@ from simkit.core import EventLog, HarnessError, REPO, canon, ddmin_lists, digest
 
 PROP = "C18"
 LEVEL = "fault_enumeration"
-BUDGET_S = {"quick": 420, "thorough": 4 * 3600}
+BUDGET_S = {"quick": 420, "thorough": 3600}
 CHUNK = 4
 RULE = (
     "each run = one plan drawn from one integer: data profile, phases of 1..16 real forked SPSDK processes with "
